@@ -1,4 +1,5 @@
 import KyupyVerif.Proofs.SubstituteWire
+import KyupyVerif.Proofs.WFr
 /-! Helper lemmas for C10 (`substitute`), part 5: frame and wiring assembled for `substituteCore`. -/
 namespace KV.Transform
 open KV
@@ -61,7 +62,7 @@ theorem mem_zip_of_getElem? {as : List Nat} {bs : List (Option Nat)} {k a : Nat}
   List.mem_iff_getElem?.mpr ⟨k, List.getElem?_zip_eq_some.mpr ⟨h1, h2⟩⟩
 
 /-- frame and wiring of `substituteCore` when the designated cell exists and no connected input is ignored -/
-theorem substituteCore_wire (h : NNet) (c : Nat) (m : NNet) (sh : Shape) (hs : implShape m = some sh) (w : WF h)
+theorem substituteCore_wire (h : NNet) (c : Nat) (m : NNet) (sh : Shape) (hs : implShape m = some sh) (w : WFr h)
     (hc : c < h.net.nodes.size) (dn : Nat) (hd : sh.des = some dn)
     (hni : NoIgnored m (sh.inPorts.zip (padTo (h.net.node c).ins sh.inPorts.length)))
     (h5 : NNet) (map : Array (Option Nat)) (dang : List (Option Nat)) (he : substituteCore h c m = some (h5, map, dang)) :
